@@ -175,6 +175,11 @@ func TestC05(t *testing.T) {
 		}
 		key, _ := gen.Bytes(rt, "key", keyLen)
 		n, lc := gen.Len(rt, "msg", 2000, 64, 128)
+		if n < 2*a.bs && rapid.IntRange(0, 2).Draw(rt, "shift") == 0 {
+			// move short lengths next to a later block boundary
+			n = min(2000, n+a.bs*rapid.IntRange(1, 12).Draw(rt, "shiftBlocks"))
+			lc = "len=blocks+small"
+		}
 		msg, fc := gen.Bytes(rt, "msgb", n)
 		chunks := gen.Chunks(rt, "chunks", n, a.bs)
 
